@@ -57,8 +57,12 @@ theorem map_identity (o : Output) :
 /-- `and` / `all`: every sub-command is hosted by its own spawned task of one command -/
 theorem and_is_parallel_hosting (env : Env) (a b : Cmd) (w : World) :
     instantiate env (.andC a b) w =
-      (let (ca, w) := instantiate env a w
+      (let n0 := w.aborts.length
        let (cb, w) := instantiate env b w
+       let n1 := w.aborts.length
+       let (ca, w) := instantiate env a w
+       -- abort handles stay registered in source order (a's, then b's)
+       let w := { w with aborts := w.aborts.take n0 ++ w.aborts.drop n1 ++ (w.aborts.drop n0).take (n1 - n0) }
        (ca, spawnOn ca env [.host cb .id] w)) := by
   simp [instantiate]
 
